@@ -315,6 +315,18 @@ pub struct RunLog {
     pub post_end_polls_ok: bool,
     /// Max number of delayed retries outstanding at a quiescent point while gates were pending.
     pub max_delayed_outstanding: usize,
+    /// First quiescent point at which a gate released earlier had still not been passed: the
+    /// future waiting on it was woken but the runner went quiet without polling it.
+    pub unresumed: Option<Unresumed>,
+}
+
+#[derive(Clone, Debug)]
+pub struct Unresumed {
+    pub round: usize,
+    pub labels: Vec<String>,
+    /// scenarios whose delayed retry was outstanding at that point
+    pub delayed: Vec<String>,
+    pub in_flight: usize,
 }
 
 static PROBE: AtomicU64 = AtomicU64::new(0);
@@ -485,6 +497,7 @@ pub fn run_with(case: &RCase, sched: &mut Schedule<'_>, poll: &mut dyn FnMut(&mu
     let mut total_idle_polls = 0usize;
     let mut busy = false;
     let mut wait_started: Option<Instant> = None;
+    let mut unresumed: Option<Unresumed> = None;
 
     let end = 'outer: loop {
         // ---- poll until quiescent
@@ -561,6 +574,13 @@ pub fn run_with(case: &RCase, sched: &mut Schedule<'_>, poll: &mut dyn FnMut(&mu
         }
         // ---- quiescent point
         round += 1;
+        if unresumed.is_none() {
+            let mut labels = with_lab(|l| l.released.iter().map(|id| l.released_labels.get(id).cloned().unwrap_or_default()).collect::<Vec<_>>());
+            if !labels.is_empty() {
+                labels.sort();
+                unresumed = Some(Unresumed { round, labels, delayed: delayed_outstanding.clone(), in_flight: in_flight.max(0) as usize });
+            }
+        }
         let (npend, labels) = with_lab(|l| (l.pending.len(), l.pending.iter().map(|p| p.label.clone()).collect::<Vec<_>>()));
         if npend > 0 {
             max_delayed_outstanding = max_delayed_outstanding.max(delayed_outstanding.len());
@@ -623,6 +643,7 @@ pub fn run_with(case: &RCase, sched: &mut Schedule<'_>, poll: &mut dyn FnMut(&mu
         let (w, label) = with_lab(|l| {
             let p = l.pending.remove(choice);
             l.released.insert(p.id);
+            l.released_labels.insert(p.id, p.label.clone());
             l.activity += 1;
             (p.waker, p.label)
         });
@@ -665,5 +686,6 @@ pub fn run_with(case: &RCase, sched: &mut Schedule<'_>, poll: &mut dyn FnMut(&mu
         parser_delivered: delivered.load(Ordering::SeqCst),
         post_end_polls_ok,
         max_delayed_outstanding,
+        unresumed,
     }
 }
